@@ -689,6 +689,133 @@ pub fn inflightstory(args: &[String]) -> i32 {
     0
 }
 
+/// C08/C11 story "renewed twice while the first renewal is being written": a value lives only on the device; a
+/// TTL-only update creates a generation that borrows those bytes; the write-behind worker has that generation's batch
+/// in hand (held right after it allocated its blocks, as an involuntary preemption would) when the TTL is renewed
+/// AGAIN; then the batch lands, the first extent is retired, flush, reads, clean close, reopen.  One sequential
+/// history judged by TraceStore.tla: every read returns the value, the key stays in range scans, every flush succeeds,
+/// the expiry after the reopen is the second renewal's.
+pub fn renewstory(args: &[String]) -> i32 {
+    let o = Opts::parse(args);
+    let dir = o.get("dir").unwrap_or("/dev/shm").to_string();
+    std::fs::create_dir_all(&dir).ok();
+    crate::obs::set_cpus(o.num("cpus", 2));
+    crate::util::watchdog::start(o.num("watchdog", 60));
+    let rounds: usize = o.num("rounds", 3);
+    let cfg = Cfg { pers: true, ttl: true, cache: o.num("cache", 0u32) == 1, fmt: 3, lim: -1, blocks: 64 };
+    let cfgj = |c: &Cfg| json!({"pers": c.pers, "ttl": c.ttl, "cache": c.cache, "fmt": c.fmt, "lim": c.lim});
+    let now = 1_000 * E9;
+    feoxdb::verif::set_now(now);
+    let path = format!("{dir}/renew_{}.feox", std::process::id());
+    let _ = std::fs::remove_file(&path);
+    let keys: Vec<Vec<u8>> = (0..rounds).map(|i| format!("r-key{i}").into_bytes()).collect();
+    let store = Arc::new(build_store(&cfg, &path).expect("build store"));
+    let mut vals = ValTable::new();
+    let mut evs: Vec<Value> = Vec::new();
+    evs.push(json!({"e": "reset", "cfg": cfgj(&cfg), "now": limbs(now), "overhead": FeoxStore::verif_record_overhead(),
+        "klen": keys.iter().map(|k| k.len()).collect::<Vec<_>>(), "post": post_state(&store, &keys)}));
+    let step = |store: &FeoxStore, vals: &mut ValTable, evs: &mut Vec<Value>, op: &str, k: usize, val: &[u8], ttl: u64| {
+        let mut ev = call_event(if op == "range" { "range" } else { op }, if op == "range" || op == "flush" { 1 } else { k });
+        match op {
+            "insert" => {
+                let r = store.insert(&keys[k - 1], val);
+                ev["v"] = vals.val(val);
+                ev["res"] = match &r { Ok(b) => res("bool", *b as i64, noval(), 0), Err(e) => res_err(e) };
+            }
+            "update_ttl" => {
+                let r = store.update_ttl(&keys[k - 1], ttl);
+                ev["ttl"] = json!(limbs(ttl));
+                ev["res"] = match &r { Ok(()) => res("unit", 0, noval(), 0), Err(e) => res_err(e) };
+            }
+            "get_ttl" => {
+                let r = store.get_ttl(&keys[k - 1]);
+                ev["res"] = match &r { Ok(None) => res("none", 0, noval(), 0), Ok(Some(s)) => res("secs", 0, noval(), *s), Err(e) => res_err(e) };
+            }
+            "get" => {
+                let r = store.get(&keys[k - 1]);
+                ev["res"] = match &r { Ok(v) => res("val", 0, vals.val(v), 0), Err(e) => res_err(e) };
+            }
+            "range" => {
+                let r = store.range_query(b"", &[0xffu8; 3], keys.len() + 1);
+                ev["lo"] = json!(1);
+                ev["hi"] = json!(keys.len());
+                ev["lim"] = json!(keys.len() + 1);
+                match &r {
+                    Ok(items) => {
+                        let it: Vec<Value> = items.iter().map(|(kk, vv)| json!({"k": keys.iter().position(|x| x == kk).map(|i| i + 1).unwrap_or(0), "val": vals.val(vv)})).collect();
+                        ev["items"] = json!(it);
+                        ev["res"] = res("list", items.len() as i64, noval(), 0);
+                    }
+                    Err(e) => ev["res"] = res_err(e),
+                }
+            }
+            _ => {
+                let r = store.flush();
+                ev["res"] = match &r { Ok(()) => res("unit", 0, noval(), 0), Err(e) => res_err(e) };
+            }
+        }
+        ev["now"] = json!(limbs(now));
+        ev["post"] = post_state(store, &keys);
+        evs.push(ev);
+    };
+    let mut windows = 0usize;
+    for i in 0..rounds {
+        let k = i + 1;
+        let val = vec![b'r'; 300 + 2500 * (i % 2)];
+        step(&store, &mut vals, &mut evs, "insert", k, &val, 0);
+        step(&store, &mut vals, &mut evs, "flush", k, b"", 0);
+        step(&store, &mut vals, &mut evs, "update_ttl", k, b"", 60);
+        static IN_WINDOW: std::sync::atomic::AtomicBool = std::sync::atomic::AtomicBool::new(false);
+        IN_WINDOW.store(false, std::sync::atomic::Ordering::SeqCst);
+        let mine = keys[k - 1].clone();
+        feoxdb::verif::install(Box::new(move |_seq, ev| {
+            if ev.kind == "alloc" && ev.key == mine.as_slice() {
+                IN_WINDOW.store(true, std::sync::atomic::Ordering::SeqCst);
+                std::thread::sleep(std::time::Duration::from_millis(40));
+            }
+        }));
+        let s2 = store.clone();
+        let flusher = std::thread::spawn(move || s2.flush());
+        let t0 = std::time::Instant::now();
+        while !IN_WINDOW.load(std::sync::atomic::Ordering::SeqCst) && t0.elapsed().as_millis() < 2000 {
+            std::thread::sleep(std::time::Duration::from_micros(200));
+        }
+        if IN_WINDOW.load(std::sync::atomic::Ordering::SeqCst) && !flusher.is_finished() { windows += 1; }
+        step(&store, &mut vals, &mut evs, "update_ttl", k, b"", 120);
+        let r = flusher.join().expect("flusher");
+        feoxdb::verif::uninstall();
+        let mut ev = call_event("flush", 1);
+        ev["res"] = match &r { Ok(()) => res("unit", 0, noval(), 0), Err(e) => res_err(e) };
+        ev["now"] = json!(limbs(now));
+        ev["post"] = post_state(&store, &keys);
+        evs.push(ev);
+        step(&store, &mut vals, &mut evs, "flush", k, b"", 0);
+        step(&store, &mut vals, &mut evs, "get", k, b"", 0);
+        step(&store, &mut vals, &mut evs, "get_ttl", k, b"", 0);
+        step(&store, &mut vals, &mut evs, "range", k, b"", 0);
+        step(&store, &mut vals, &mut evs, "flush", k, b"", 0);
+    }
+    match Arc::try_unwrap(store) { Ok(s) => drop(s), Err(_) => panic!("store still shared") }
+    match build_store(&cfg, &path) {
+        Ok(s) => {
+            evs.push(json!({"e": "reopen", "cfg": cfgj(&cfg), "now": limbs(now), "post": post_state(&s, &keys)}));
+            for k in 1..=keys.len() {
+                step(&s, &mut vals, &mut evs, "get", k, b"", 0);
+                step(&s, &mut vals, &mut evs, "get_ttl", k, b"", 0);
+            }
+            std::mem::forget(s);
+        }
+        Err(e) => evs.push(json!({"e": "reopen_fail", "err": crate::util::err_name(&e)})),
+    }
+    let mut out = std::io::BufWriter::new(std::fs::File::create(o.req("out")).expect("create out"));
+    for e in &evs { writeln!(out, "{}", e).unwrap(); }
+    out.flush().unwrap();
+    let _ = std::fs::remove_file(&path);
+    println!("{}", json!({"events": evs.len(), "rounds": rounds, "windows": windows}));
+    if windows == 0 { return 3; }
+    0
+}
+
 thread_local!(static STORY_VICTIM_ALLOCATED: std::cell::Cell<bool> = const { std::cell::Cell::new(false) });
 
 /// C09/C02 story "failed batch next to an acknowledged one": a retired two-block extent [s, s+1] leaves
